@@ -201,6 +201,7 @@ func c12DrawDeploy(rt *rapid.T, addr string) c12Deploy {
 func c12Draw(rt *rapid.T) c12Case {
 	c := c12Case{Registry: rapid.Bool().Draw(rt, "registry")}
 	n := rapid.IntRange(4, 10).Draw(rt, "nops")
+	var prev []c12Deploy
 	for i := 0; i < n; i++ {
 		op := c12Op{Creator: rapid.IntRange(0, 2).Draw(rt, "creator")}
 		if rapid.IntRange(0, 4).Draw(rt, "kind") == 0 {
@@ -219,7 +220,15 @@ func c12Draw(rt *rapid.T) c12Case {
 				nd = 2
 			}
 			for j := 0; j < nd; j++ {
-				op.Deploys = append(op.Deploys, c12DrawDeploy(rt, addr))
+				d := c12DrawDeploy(rt, addr)
+				if len(prev) > 0 && rapid.IntRange(0, 2).Draw(rt, "again") == 0 {
+					// come back to a path used before, with another file set / version / visibility
+					d.Path, d.Name = prev[rapid.IntRange(0, len(prev)-1).Draw(rt, "prev")].Path, ""
+					d.Name = c12NameFor(d.Path)
+					d.Private = rapid.IntRange(0, 2).Draw(rt, "private2") != 0
+				}
+				prev = append(prev, d)
+				op.Deploys = append(op.Deploys, d)
 			}
 		}
 		c.Ops = append(c.Ops, op)
@@ -500,6 +509,11 @@ func c12Exec(ctx *vk.Ctx, c c12Case) error {
 					if prev != nil {
 						nt = true
 						ctx.Class("private-redeploy-accepted")
+						hadTests := false
+						for n := range prev.files {
+							hadTests = hadTests || strings.HasSuffix(n, "_test.gno") || strings.HasSuffix(n, "_filetest.gno")
+						}
+						ctx.ClassIf(hadTests && (d.Files == 0 || d.Files == 2), "private-redeploy-drops-test-files")
 					}
 					ent := &c12Entry{files: map[string]string{}, private: d.Private, creator: creator.Addr.String(), height: height}
 					for _, f := range c12Files(d) {
